@@ -5,12 +5,20 @@ from), with every natural loop evaluated ONCE on symbolic loop-carried values (p
 transfer (summary).  No concrete data is ever assigned to sequence bytes or scores, no path condition is solved.
 The evaluator also logs every memory access (pointer class, linear byte offset, width, alignment requirement) for E9.
 """
+import re
 from fractions import Fraction
 from . import expr as X
 from .db import short
 
 VEC_TYPES = {'core::core_arch::x86::__m256i': 32, 'core::core_arch::x86::__m256': 32, 'core::core_arch::x86::__m256d': 32,
              'core::core_arch::x86::__m128i': 16, 'core::core_arch::x86::__m128': 16, 'core::core_arch::x86::__m128d': 16}
+# Arm NEON: 128-bit vectors, and the xN tuple structs (modelled as one vector of N*16 bytes: field .k = bytes 16k..16k+16)
+_NEON = 'core::core_arch::arm_shared::neon::'
+for _t in ('uint8x16_t', 'int8x16_t', 'uint16x8_t', 'int16x8_t', 'uint32x4_t', 'int32x4_t', 'uint64x2_t', 'int64x2_t', 'float32x4_t', 'float64x2_t'):
+    VEC_TYPES[_NEON + _t] = 16
+    for _n in (2, 3, 4):
+        VEC_TYPES[_NEON + _t.replace('_t', f'x{_n}_t')] = 16 * _n
+NEON_STRUCTS = {k for k, v in VEC_TYPES.items() if k.startswith(_NEON) and v > 16}
 SIZES = {'u8': 1, 'i8': 1, 'bool': 1, 'u16': 2, 'i16': 2, 'u32': 4, 'i32': 4, 'f32': 4, 'u64': 8, 'i64': 8, 'f64': 8, 'usize': 8, 'isize': 8, '()': 1}
 
 
@@ -184,10 +192,11 @@ def bit_lane(op, x, y, w):
             return y
         if ones(y, w):
             return x
+        z_ = ('kw', w, 0) if w > 1 else ('k', 0)
         if is_mask(x) and not is_mask(y):
-            return ('select', x, y, ('kw', w, 0) if w > 1 else ('k', 0))
+            return ('select', x[2], z_, y) if x[0] == 'mask' and x[1] == 'not' else ('select', x, y, z_)
         if is_mask(y) and not is_mask(x):
-            return ('select', y, x, ('kw', w, 0) if w > 1 else ('k', 0))
+            return ('select', y[2], z_, x) if y[0] == 'mask' and y[1] == 'not' else ('select', y, x, z_)
         if is_mask(x) and is_mask(y):
             return ('mask', 'and', x, y)
         if x == y:
@@ -342,7 +351,9 @@ class Eval:
                 else:
                     v = ('deref', v)
             elif 'f' in pr:
-                if isinstance(v, tuple):
+                if isinstance(v, Vec) and len(v) > 16 and len(v) % 16 == 0:
+                    v = Vec(list(v.b[16 * pr['f']:16 * pr['f'] + 16]))
+                elif isinstance(v, tuple):
                     v = X.field(v, pr.get('n', str(pr['f'])), pr['f'])
                 else:
                     v = ('fld', ('opaque', repr(v)), pr.get('n', str(pr['f'])))
@@ -422,6 +433,11 @@ class Eval:
             return ('discr', self.place(env, rv['p']))
         if k == 'agg':
             tag = rv.get('ak')
+            if tag == 'adt' and rv.get('adt') in NEON_STRUCTS:
+                ops = [self.operand(env, o) for o in rv['ops']]
+                if all(isinstance(o, Vec) and len(o) == 16 for o in ops):
+                    return Vec([b for o in ops for b in o.b])
+                raise Unsupported(f'NEON struct built from non-vector operands')
             if tag == 'adt':
                 tag = ('adt', short(rv['adt']), rv['variant'], tuple(rv.get('fields', [])))
             elif tag == 'closure':
@@ -571,6 +587,105 @@ class Eval:
             return ('movemask', vec(0))
         raise Unsupported(f'intrinsic without a transfer function: {n}')
 
+
+    # ---- Arm NEON intrinsics (transcribed from the Arm ACLE pseudocode; all vectors are 16 bytes, little-endian lanes)
+    def neon(self, name, t, args, block, gargs):
+        span = t['span']
+        n = name.rsplit('::', 1)[-1]
+        A = args
+        imm = None
+        for g in gargs:
+            try:
+                imm = int(str(g).split('_')[0].split(':')[0])
+            except ValueError:
+                pass
+
+        def vec(i, size=16):
+            v = A[i]
+            if isinstance(v, Vec) and len(v) == size:
+                return v
+            raise Unsupported(f'{n}: argument {i} is not a {size}-byte vector: {v!r}')
+        suf = n.rsplit('_', 1)[-1] if '_' in n else ''
+        W = {'u8': 1, 's8': 1, 'u16': 2, 's16': 2, 'u32': 4, 's32': 4, 'f32': 4, 'u64': 8, 's64': 8, 'f64': 8}
+        if n.startswith('vdupq_n_') or n.startswith('vmovq_n_'):
+            w = W[suf]
+            a = A[0]
+            if isinstance(a, tuple) and a[0] == 'k' and isinstance(a[1], int) and not isinstance(a[1], bool):
+                t0 = ('kw', w, a[1] & ((1 << (8 * w)) - 1)) if w > 1 else ('k', a[1] & 0xFF)
+            elif isinstance(a, tuple) and a[0] == 'k' and isinstance(a[1], float):
+                t0 = ('kf', a[1]) if a[1] != 0.0 else ('kw', 4, 0)
+            else:
+                t0 = ('scalar', w, a)
+            return from_lanes([t0] * (16 // w), w)
+        if n.startswith('vreinterpretq_'):
+            return vec(0)
+        m_ = re.fullmatch(r'vld1q_(u8|s8|u16|s16|u32|s32|f32|u64|s64)(_x([234]))?', n)
+        if m_:
+            k = int(m_.group(3) or 1)
+            return self.load(A[0], 16 * k, False, n, block, span)
+        m_ = re.fullmatch(r'vst1q_(u8|s8|u16|s16|u32|s32|f32|u64|s64)(_x([234]))?', n)
+        if m_:
+            k = int(m_.group(3) or 1)
+            self.access('store', A[0], 16 * k, False, n, block, span, vec(1, 16 * k))
+            return ('k', 0, '()')
+        m_ = re.fullmatch(r'vld1q_dup_(u8|u16|u32|f32|s32)', n)
+        if m_:
+            w = W[m_.group(1)]
+            v = self.load(A[0], w, False, n, block, span)
+            return Vec(list(v.b) * (16 // w))
+        m_ = re.fullmatch(r'vzipq_(u8|s8|u16|u32)', n)
+        if m_:
+            # result.val[0] = interleave of the low halves, result.val[1] = interleave of the high halves (ZIP1 / ZIP2)
+            w = W[m_.group(1)]
+            lo = unpack(vec(0), vec(1), w, False)
+            hi = unpack(vec(0), vec(1), w, True)
+            return Vec(list(lo.b) + list(hi.b))
+        m_ = re.fullmatch(r'vzip([12])q_(u8|s8|u16|u32)', n)
+        if m_:
+            return unpack(vec(0), vec(1), W[m_.group(2)], m_.group(1) == '2')
+        m_ = re.fullmatch(r'vceqq_(u8|s8|u16|u32|s32)', n)
+        if m_:
+            return lanewise('eq', W[m_.group(1)], vec(0), vec(1))
+        if n == 'vaddq_f32':
+            return lanewise('add_f32', 4, vec(0), vec(1))
+        if n == 'vmaxq_f32':
+            return lanewise('max_f32', 4, vec(0), vec(1))
+        if n == 'vqaddq_u8':
+            return lanewise('adds_u8', 1, vec(0), vec(1))
+        if n in ('vaddq_u8', 'vaddq_s8'):
+            return lanewise('add_wrap8', 1, vec(0), vec(1))
+        if n == 'vmaxq_u8':
+            return lanewise('max_u8', 1, vec(0), vec(1))
+        if re.fullmatch(r'vandq_(u8|u16|u32|u64|s8|s16|s32|s64)', n):
+            return bitop('and', vec(0), vec(1))
+        if re.fullmatch(r'vorrq_(u8|u16|u32|u64|s8|s16|s32|s64)', n):
+            return bitop('or', vec(0), vec(1))
+        if re.fullmatch(r'vbicq_(u8|u16|u32|u64)', n):
+            return bitop('andnot', vec(1), vec(0))          # a & !b
+        if re.fullmatch(r'vmvnq_(u8|u16|u32|s8|s16|s32)', n):
+            return bitop('andnot', vec(0), Vec([('k', 0xFF)] * 16))   # !a & 0xFF.. = bitwise not
+        if re.fullmatch(r'vbslq_(u8|u16|u32|u64|s8|f32)', n):
+            # bitwise select: (mask & a) | (!mask & b); with lane masks this is a lane select
+            mk_, a, b = vec(0), vec(1), vec(2)
+            for w in (8, 4, 2, 1):
+                lm = lanes(mk_, w)
+                if all(is_mask(x) for x in lm):
+                    la, lb = lanes(a, w), lanes(b, w)
+                    return from_lanes([('select', mm, x, y) for mm, x, y in zip(lm, la, lb)], w)
+            return from_lanes([('selb', mm, x, y) for mm, x, y in zip(mk_.b, a.b, b.b)], 1)
+        if n == 'vqtbl1q_u8':
+            # out[i] = idx[i] < 16 ? table[idx[i]] : 0   (TBL, one table register)
+            tab = tuple(vec(0).b)
+            return Vec([('tbl16', tab, i) for i in vec(1).b])
+        m_ = re.fullmatch(r'vgetq_lane_(u64|u32|u8)', n)
+        if m_:
+            w = W[m_.group(1)]
+            lane_i = imm if imm is not None else (A[1][1] if len(A) > 1 and isinstance(A[1], tuple) and A[1][0] == 'k' else None)
+            if lane_i is None:
+                raise Unsupported(f'{n}: lane index not found')
+            return ('getlane', w, lane_i, lanes(vec(0), w)[lane_i])
+        raise Unsupported(f'NEON intrinsic without a transfer function: {n}')
+
     # ---- calls
     def call(self, env, t, block):
         c = short(t.get('resolved') or t.get('callee') or '')
@@ -580,6 +695,8 @@ class Eval:
         if c.startswith('core::core_arch::') and '::_mm' in c:
             full = t.get('resolved_full') or t.get('callee_full') or ''
             return self.intrinsic(c, t, args, block, t.get('gargs', []))
+        if c.startswith('core::core_arch::') and '::neon::' in c:
+            return self.neon(c, t, args, block, t.get('gargs', []))
         last = c.rsplit('::', 1)[-1]
         if c in ('core::ptr::const_ptr::add', 'core::ptr::mut_ptr::add', 'core::ptr::const_ptr::offset', 'core::ptr::mut_ptr::offset') and isinstance(args[0], Ptr):
             p = args[0]
@@ -676,6 +793,12 @@ class Eval:
             return
         # store through a projection
         base = env.get(p['l'])
+        if isinstance(base, Vec) and len(base) > 16 and len(p['pr']) == 1 and isinstance(p['pr'][0], dict) and 'f' in p['pr'][0] and isinstance(v, Vec) and len(v) == 16:
+            k = p['pr'][0]['f']
+            nb = list(base.b)
+            nb[16 * k:16 * k + 16] = list(v.b)
+            env[p['l']] = Vec(nb)
+            return
         if p['pr'] == ['*'] and isinstance(base, Ptr):
             w = len(v) if isinstance(v, Vec) else (base.elem or 0)
             self.access('store', base, w, False, 'deref-store', block, span, v)
